@@ -5,7 +5,8 @@
 //   factory ids <F>                       ids of factory F
 //   factory walk <F> <'id> <ni> <int>*ni <nf> <hex>*nf
 //                                         type_id, registered parameters, clone equality, clone independence under
-//                                         modification (candidate values from the op line), behavioural probe
+//                                         modification (candidate values from the op line), clone of the modified
+//                                         clone, behavioural probe
 //   factory dump                          every id of every factory with every registered parameter (used by translate())
 //
 // strings travel as `'` + percent-encoded bytes (so that the empty string and strings with blanks are one token).
@@ -949,7 +950,17 @@ std::string walk(const factory_t<tobject>& factory, const std::string& id, const
     {
         agree = mparams[k] == aparams[k];
     }
-    out << "origsame" << ((intact && agree) ? 1 : 0) << "clone";
+    out << "origsame" << ((intact && agree) ? 1 : 0);
+
+    // the clone of the modified clone carries the modified configuration (not the defaults)
+    const auto reclone = clone->clone();
+    const auto rparams = params_of(*reclone);
+    auto       carried = reclone->type_id() == clone->type_id() && rparams.size() == mparams.size();
+    for (size_t k = 0; carried && k < mparams.size(); ++k)
+    {
+        carried = rparams[k] == mparams[k];
+    }
+    out << "reclone" << (carried ? 1 : 0) << "clone";
     print_params(out, mparams);
     return out.str();
 }
